@@ -12,6 +12,7 @@ package memberlist
 // handleConn, verifyProtocol, aliveNode, nodes/nodeMap, encode.
 
 import (
+	"runtime"
 	"bytes"
 	"crypto/aes"
 	"crypto/cipher"
@@ -772,6 +773,23 @@ func vtRound(r *vfRng, st *vfStats, allCuts bool, round int) []vfCase {
 			out = append(out, vtFeedCase(11, hc, bc, bomb[:vfMin(len(bomb), 300)], fb, false, false, st))
 			st.Extra["bomb_wire_bytes"] = len(bomb)
 		}
+	}
+	// ---- a much larger bomb (256 MiB of zeros, a few hundred KB compressed) on a plaintext stream: the cap must stop
+	//      the inflation itself — what the receiver allocates while it handles the stream stays within a few times the
+	//      cap (measured: about 3.2 x 40 MiB), it does not grow with the size of the bomb.  Once per run. ----
+	if round == 0 {
+		if cb, err := compressPayload(make([]byte, 256<<20), false); err == nil {
+			s := append(append([]byte(nil), lh...), cb.Bytes()...)
+			var m0, m1 runtime.MemStats
+			runtime.GC()
+			runtime.ReadMemStats(&m0)
+			f := ph.feed(s, 0)
+			runtime.ReadMemStats(&m1)
+			f.consumed = int((m1.TotalAlloc - m0.TotalAlloc) >> 20)
+			st.Extra["big_bomb_allocated_mib"] = f.consumed
+			out = append(out, vtFeedCase(12, pc, pic, s[:vfMin(len(s), 300)], f, false, false, st))
+		}
+		runtime.GC()
 	}
 	// oversized declared sizes on a plaintext stream
 	for _, hdr := range []pushPullHeader{{Nodes: 1 << 21}, {Nodes: 0, UserStateLen: 21 * 1024 * 1024}, {Nodes: -1}} {
